@@ -27,8 +27,11 @@ ASSUMPTIONS = ['A-IO: the reader delivers the whole file (after the leading comm
                'vcf_header.py regular-expression parsing is not modelled: the INFO declarations (key, type, scalar/list) are case inputs',
                'SequenceID columns are compared as text (NUL padding of the fixed-width string array is not modelled)',
                'missing values: the library represents a missing Optional[int] as 0 and a missing Optional[float] as NaN; the specification adopts that representation']
-PARTIAL = ['C02_optint_partial: Optional[int] columns are proved correct only when no row or every row is the "." placeholder (mixed columns: finding C02-optint-mixed-missing)',
-           'C02_intlist_partial: list columns are proved correct only without trailing commas (finding C02-list-trailing-comma)']
+PARTIAL = ['C02_optint_partial / C02_optint_all_missing: Optional[int] columns are proved correct for the code as it is only when no row, or every row, is the "." placeholder (mixed columns: C02_optint_refuted, finding C02-optint-mixed-missing; the repaired wrapper is proved correct without guard: C02_optint_fixed_correct)',
+           'C02_intlist_refuted: list columns with trailing commas are wrong in the code as it is (finding C02-list-trailing-comma); no positive theorem is proved for the whole-column split',
+           'C02_sid_partial: identifier columns are proved correct when some text of the column is non-empty (all-empty: C02_sid_all_empty_refuted, finding C02-sid-all-empty)',
+           'C02_info_short_refuted: typed INFO lookup; no positive theorem (correspondence only)',
+           'end-to-end theorems cover BED3 and chrom.sizes; BED6/12, bedGraph, narrowPeak, GTF/GFF3/wig, pairs, SAM, GFA, VCF, FASTQ, FASTA are tied by T1/T2/T3 on their kernels plus correspondence']
 PER_FILE = 40
 
 # ----------------------------------------------------------------------------- formats
@@ -282,6 +285,8 @@ def _mk(rng, fmt, n, W, crlf=False, final_newline=True, **kw):
     g = G(rng, W)
     opts = dict(p_neg=0.0, p_plus=0.0, p_dot=0.0, trailing=False, p_tags=0.5)
     opts.update(kw)
+    if n <= 2 and fmt.startswith('vcf') and rng.random() < 0.8:
+        opts['p_absent'] = 0.05     # very short INFO columns are finding C02-info-short-buffer: keep them a minority
     case = dict(fmt=fmt, crlf=crlf, final_newline=final_newline, header=[], comments={}, decl=None, width=0)
     if fmt in ('vcf', 'vcfgt', 'vcfph', 'vcfhap'):
         decl = _decl(g) if opts.pop('declared', True) else None
@@ -312,6 +317,14 @@ def _mk(rng, fmt, n, W, crlf=False, final_newline=True, **kw):
             if rng.random() < 0.35:
                 alph = NAME + ' ' + ('\t' if opts.get('comment_tabs') else '')
                 case['comments'][str(i)] = ['#' + g.text(0, alph) for _ in range(rng.randint(1, 2))]
+    if not case['final_newline']:
+        # a file that ends in an empty line and lacks the final line break is, byte for byte, a file with one
+        # line less and the break present: not a distinct well-formed input
+        case['final_newline'] = True
+        full = file_bytes(case)
+        eol = b'\r\n' if crlf else b'\n'
+        if not full.endswith(eol + eol) and full != eol:
+            case['final_newline'] = False
     return case
 
 
@@ -325,13 +338,15 @@ def generate(tier, seed):
         for n in (1, 2, 3):
             for crlf in (False, True):
                 for k in range(2 * reps):
+                    if crlf and fmt in ('sam', 'gff', 'wig') and (k or n > 1):
+                        continue        # these readers do not handle CRLF at all (recorded findings): one case each
                     cases.append(_mk(rng, fmt, n, 3, crlf=crlf))
     # larger / very unequal widths; signs; placeholders; tags; no final newline
     for rep in range(8 * reps):
         for fmt in delimited:
             n = rng.randint(2, 7)
             W = rng.choice([1, 4, 9, 14])
-            cases.append(_mk(rng, fmt, n, W, crlf=(rep % 4 == 3), final_newline=(rep % 5 != 2),
+            cases.append(_mk(rng, fmt, n, W, crlf=(rep % 4 == 3 and (fmt not in ('sam', 'gff', 'wig') or rep == 3)), final_newline=(rep % 5 != 2),
                              p_neg=rng.choice([0, 0, 0.3]), p_plus=rng.choice([0, 0, 0.2]),
                              p_dot=rng.choice([0, 0, 1.0]), p_tags=rng.choice([0, 0.5, 1])))
         for fmt in ('vcf', 'vcf', 'vcfgt', 'vcfph', 'vcfhap'):
@@ -486,7 +501,7 @@ def to_coq(case, o):
         ['(%s, %s, %s)' % (hx(k.encode()), 'I' + t, cbool(l)) for k, t, l in case['decl']], '(list Z * itype * bool)')
     fb = file_bytes(case)
     if not case['final_newline']:
-        fb += b'\r\n' if case['crlf'] else b'\n'        # the reader appends the missing line break (C01)
+        fb += b'\n'        # the reader appends a bare LF when the file does not end with a line break (C01)
     if 'error' in o:
         obs = 'ObsErr'
     else:
@@ -497,8 +512,8 @@ def to_coq(case, o):
             else:
                 cols.append('Col %s' % clist([_cell(kind, v) for v in rows], 'cell'))
         obs = 'Obs %s %s %s' % (cz(o['n']), clist(cols, 'colres'), cbool(_eager_ok(o)))
-    return ('{| k_fmt := %s; k_crlf := %s; k_header := %s; k_recs := %s; k_comments := %s; k_decl := %s; k_width := %s; '
-            'k_file := %s; k_obs := %s |}' % (COQ_TAG[case['fmt']], cbool(case['crlf']), hdr, recs, com, decl, cz(case.get('width', 0)),
+    return ('{| k_fmt := %s; k_crlf := %s; k_final := %s; k_header := %s; k_recs := %s; k_comments := %s; k_decl := %s; k_width := %s; '
+            'k_file := %s; k_obs := %s |}' % (COQ_TAG[case['fmt']], cbool(case['crlf']), cbool(case['final_newline']), hdr, recs, com, decl, cz(case.get('width', 0)),
                                               hx(fb), obs))
 
 
@@ -566,6 +581,8 @@ def _expected_failures(case):
     for j, name in SID_COLS.get(fmt, {}).items():
         if all(r[j] == '' for r in recs):
             out[name] = 'C02-sid-all-empty'
+    if case['crlf'] and fmt == 'wig':
+        out['value'] = 'C02-crlf-interior-comment-formats'
     if fmt in ('bed6', 'bed12', 'npk') and _optint_mixed([r[4] for r in recs]):
         out['score'] = 'C02-optint-mixed-missing'
     if fmt.startswith('vcf') and case.get('decl'):
@@ -584,13 +601,16 @@ def finding(case, o):
     fmt = case['fmt']
     recs = case['recs']
     exp = _expected_failures(case)
+    # CRLF handling missing in the SAM / interior-comment readers
+    if case['crlf'] and fmt == 'sam' and o.get('error') == 'AttributeError':
+        return 'C02-crlf-sam'
     if 'cols' in o:
         bad = {c[0] for c in o['cols'] if c[1] == 'err'}
         # every failing column is one a single recorded finding predicts, and nothing else failed
         if bad:
             ids = {exp.get(b) for b in bad}
-            if bad == set(exp) and len(ids) == 1 and None not in ids:
-                return ids.pop()
+            if bad == set(exp) and None not in ids:
+                return sorted(ids)[0]
             return None
     elif exp and fmt in EAGER and len(set(exp.values())) == 1 and o.get('error') == 'ValueError':
         return list(exp.values())[0]
@@ -604,15 +624,21 @@ def finding(case, o):
                 vals = [it.split('=', 1)[1] for r in recs for it in r[7].split(';') if it.startswith(k + '=')]
                 if '.' in vals and (len(vals) < len(recs) or any(v != '.' for v in vals)):
                     return 'C02-optint-mixed-missing'
-    # CRLF handling missing in the SAM / interior-comment readers
-    if case['crlf'] and fmt == 'sam' and o.get('error') == 'AttributeError':
-        return 'C02-crlf-sam'
-    if case['crlf'] and fmt in INTERIOR:
+    if case['crlf'] and fmt == 'gff' and 'cols' in o:
         return 'C02-crlf-interior-comment-formats'
     # interior comment line that contains a TAB
     if fmt in INTERIOR and any('\t' in c for cs in case['comments'].values() for c in cs):
         return 'C02-interior-comment-with-tab'
     return None
+
+
+def search(tier, seed, disagreeing):
+    """After a broken obligation: more files of the formats on which implementation and model disagree."""
+    fmts = {c['fmt'] for c in disagreeing} or set(FORMATS)
+    out = []
+    for s2 in (seed + 101, seed + 202):
+        out += [c for c in generate('thorough', s2) if c['fmt'] in fmts]
+    return out[:800]
 
 
 def signature(case, o):
